@@ -1,9 +1,9 @@
 """C07 — parsing recovers exactly the written program and its source locations."""
 import re
 from ..engines import e1_div
-from ..lib.cfgq import switch_edges, dominating_guards
+from ..lib.cfgq import switch_edges, dominating_guards, normalized
 from ..lib.facts import is_callee, callee_fn, sp_str, const_str
-from ..lib.trace import Tracer, canon, canon_full, strip, walk, mentions_field
+from ..lib.trace import Tracer, canon, canon_full, strip, walk, mentions_field, root, upvar_origin
 from .C10 import _Filter
 
 LEVEL_TEXT = ("Parser-discipline rules on the MIR of parser.rs: (E7.w) the position state (offset, location, chars) has a single writer, "
@@ -17,6 +17,7 @@ LEVEL_TEXT = ("Parser-discipline rules on the MIR of parser.rs: (E7.w) the posit
               "table; (E1.c) every parser loop consumes input.")
 LEVEL_NOTE = ("Not decided: that the AST equals the written program for all layouts (a grammar-equivalence statement over all texts) and the "
               "numeric values of columns.  E7.l checks the capture point of locations, not every whitespace permutation.")
+LEVEL_TEXT += (" Also: (E7.a) the query text handed to tree-sitter is the untransformed source slice of the stanza's query followed by the internal full-match capture; (E7.n) numerals are the maximal run of ASCII digits at the position; (E7.x) skip_query's escape flag makes exactly the next character of a query string inert; (E7.q) parse_sequence compares the next character with the end marker before every element (empty and trailing-comma forms).")
 
 POS_FIELDS = ("offset", "location", "chars")
 
@@ -235,6 +236,9 @@ def run(prog, rep):
                     d = dict(zip(st["rv"]["fields"], st["rv"]["ops"]))
                     e = tr.operand(d["location"])
                     na += 1
+                    if root(e)[0] == "upvar":
+                        # built inside a closure (`.map(|name| UnscopedVariable { name, location })`): the captured variable's origin in the parent
+                        e = upvar_origin(prog, f, e) or e
                     ok = mentions_field(e, "tsg::parser::Parser", "location") or (strip(e)[0] == "phi" and all(mentions_field(a, "tsg::parser::Parser", "location") for a in strip(e)[1]))
                     rep.check(ok, "E7.l", "%s :: %s.location" % (f.id, st["rv"]["adt"].rsplit("::", 1)[-1] + ("::" + st["rv"]["variant"] if st["rv"].get("variant") and st["rv"]["variant"] != st["rv"]["adt"].rsplit("::", 1)[-1] else "")), sp_str(st["sp"]),
                               "location = %s" % canon(e)[:80], "the location of %s does not come from the parser position: %s" % (st["rv"]["adt"], canon(e)[:120]))
@@ -272,8 +276,9 @@ def run(prog, rep):
         guards = []
         for b in sorted(body.reachable()):
             for g in switch_edges(body, tr, b):
-                c = strip(g.cond)
-                if c[0] == "call" and re.search(r"PartialEq.*::eq$", c[1] or "") and g.value is True:
+                ncond, nval = normalized(g)
+                c = strip(ncond)
+                if c[0] == "call" and re.search(r"PartialEq.*::eq$", c[1] or "") and nval is True:
                     kws = [const_str_of(x) for x in c[3]]
                     kws = [k for k in kws if k]
                     if kws and "Parser::parse_name" in canon(c):
